@@ -247,6 +247,10 @@ def rand_items(rng, N, length):
             qs = [int(x) for x in sorted(rng.permutation(N)[:int(rng.integers(1, N + 1))])]
             if rng.integers(4) == 0:
                 qs = qs[::-1]
+            if rng.integers(5) == 0:       # the same qubit listed twice: the second outcome is determined by the first
+                qs = qs + [qs[int(rng.integers(len(qs)))]]
+                if rng.integers(2):
+                    qs = [qs[-1]] + qs[:-1]
             items.append(("m", qs))
         else:
             items.append(("g", PR.rand_spec(rng, N)))
